@@ -18,3 +18,6 @@ pub mod bootstrap_addr;
 #[cfg(kani)]
 #[path = "gen/client_addr.rs"]
 pub mod client_addr;
+#[cfg(kani)]
+#[path = "gen/quorum.rs"]
+pub mod quorum;
